@@ -561,6 +561,38 @@ def custom_predicates_present(req, mode, impl):
     return True, ''
 
 
+def no_extra_predicates(req, tr, mode, impl, educed):
+    """explicit modes add *exactly* the given predicates: with `bound = false` / `bound = ""` / `bound(..)` the emitted where-clause holds
+    the type's own where-clause and the given predicates and nothing else (an automatic predicate sneaking in next to them can be
+    semantically invisible — `PhantomData<U>: Clone` — and still is not what was asked for)"""
+    eff = mode
+    partner = {'Eq': 'PartialEq', 'Copy': 'Clone', 'PartialOrd': 'Ord'}.get(tr)
+    if partner and partner in educed:
+        eff = dict(req.traits).get(partner)      # the companion impl is emitted with the primary's header
+    if eff is None or eff == '*':
+        return True, ''
+    allowed = set()
+    texts = [req.where or '']
+    if isinstance(eff, tuple) and eff[0] not in ('empty', 'falselist'):
+        texts.append(eff[1])
+    elif isinstance(eff, str):
+        texts.append(eff)
+    for txt in texts:
+        for pred in split_top(txt):
+            pred = pred.strip()
+            m = re.match(r"^(.+?)\s*:(?!:)\s*(.*)$", pred) if pred else None
+            if not m:
+                continue
+            for part in split_top(m.group(2), '+'):
+                allowed.add(norm(m.group(1)) + ':' + norm(part))
+    for w in impl['where']:
+        lhs = norm(w.get('lhs', ''))
+        for b in w.get('bounds', []):
+            if lhs + ':' + norm(b) not in allowed:
+                return False, f'the emitted where-clause holds `{w.get("lhs")}: {b}`, which is neither in the type\'s own where-clause nor among the given predicates (mode {eff})'
+    return True, ''
+
+
 def header_matches(req, impl):
     """the impl header repeats the type's lifetime / type / const parameters with inline bounds, minus defaults"""
     want = [(k, n, norm(b or '')) for k, n, b, d in req.params]
@@ -1112,6 +1144,10 @@ def main(prop, tier, seed, keep=False):
                     continue
                 okc, why = custom_predicates_present(req, mode, im)
                 if not okc:
+                    header_bad.append((req, tr, why))
+                    continue
+                okx, why = no_extra_predicates(req, tr, mode, im, educed)
+                if not okx:
                     header_bad.append((req, tr, why))
                     continue
                 W = W_formula(enc, req, im, Wmap, educed)
